@@ -122,6 +122,68 @@ OTHER_RULES = ["/* c */", "/**/", "/* a\n   b */", '@import "a.css";', "@import 
                '@unk { a { b: c } }', "@X-Y 1px;"]
 
 
+# ---- systematic value coverage: every preference row sees every numeric shape and every value kind
+NUM_SIGNS = ["", "-", "+"]
+NUM_INTS = ["", "0", "1", "7", "10", "20", "100", "105", "007", "120", "1000", "90"]
+NUM_FRACS = ["", ".5", ".25", ".05", ".1234567", ".50", ".0", ".999999", ".9999999", ".000001"]
+NUM_UNITS = ["", "px", "em", "%", "pt", "mm", "s", "deg", "PX", "rem"]
+PROP_FOR_UNIT = {"": "line-height", "s": "transition-delay", "deg": "x-angle"}
+
+
+def numeric_lexemes(full):
+    """sign x integer part x fraction (x unit: all units when `full`, otherwise cycling through them)"""
+    out, k = [], 0
+    for sg in NUM_SIGNS:
+        for ip in NUM_INTS:
+            for fr in NUM_FRACS:
+                if not ip and not fr:
+                    continue
+                for u in (NUM_UNITS if full else [NUM_UNITS[k % len(NUM_UNITS)]]):
+                    out.append((sg + ip + fr, u))
+                k += 1
+    return out
+
+
+def numeric_sheets(full=False, per_sheet=36):
+    lex = numeric_lexemes(full)
+    sheets, cur = [], []
+    for i, (n, u) in enumerate(lex):
+        prop = PROP_FOR_UNIT.get(u, "margin-left" if i % 2 else "top")
+        cur.append("%s: %s%s" % (prop, n, u))
+        if i % 7 == 3:        # the same shapes inside lists and functions
+            a, b, c = lex[(i * 5 + 1) % len(lex)], lex[(i * 11 + 2) % len(lex)], lex[(i * 17 + 3) % len(lex)]
+            cur.append("margin: %s%s %s%s %s%s" % (n, u or "px", a[0], a[1] or "px", b[0], b[1] or "em"))
+            cur.append("transform: translate(%s%s, %s%s) scale(%s)" % (a[0], a[1] or "px", b[0], b[1] or "%", c[0]))
+            cur.append("width: calc(%s%s + %s%s)" % (a[0].lstrip("+-") or "1", a[1] or "px", b[0].lstrip("+-"), b[1] or "%"))
+            cur.append("color: rgba(%s, 20.5, 100, %s)" % (a[0].lstrip("+-"), c[0].lstrip("+-")))
+        if len(cur) >= per_sheet:
+            sheets.append(cur)
+            cur = []
+    if cur:
+        sheets.append(cur)
+    out = []
+    for j, ds in enumerate(sheets):
+        half = len(ds) // 2
+        out.append(".n%d { %s }\n@media print { .m%d { %s } }\n@page { margin: %s }" % (
+            j, "; ".join(ds[:half]), j, "; ".join(ds[half:]), ds[0].split(": ")[1] if not ds[0].endswith(("s", "deg")) else "10.5mm"))
+    return out
+
+
+KIND_SHEETS = [
+    ".c1 { color: #abc; color: #aabbcc; background-color: #aabbcd; border-color: #AABBCC #a1b2c3 #FFF #000000; "
+    "outline-color: #aabbc0; color: #001122 }",
+    ".c2 { color: rgb(10, 20, 100); color: rgba(0,0,0,0.50); color: hsl(120, 50%, 10.5%); color: red; "
+    "background: #aabbcc url(a.png) 10.5px 0.5em }",
+    ".s1 { content: \"a b\"; content: 'it\\'s'; content: \"q\\\"r\"; content: \"a;b{c}\"; content: \"/* x */\"; "
+    "content: \"url(x)\"; content: \"10.50\" \"0.5\" \"#aabbcc\" }",
+    ".s2 { quotes: \"\\201C\" \"\\201D\"; font-family: \"A B\", 'C D', serif; content: \"a\\a b\"; content: \"\" }",
+    ".u1 { background: url(a.png); background: url(\"a b.png\"); background: url('a(b).png'); "
+    "background-image: url(data:image/png;base64,AAAA=); list-style: url(10.50.png) }",
+    "@font-face { font-family: x; src: url(x.woff) format(\"woff\"), url(\"y z.ttf\"); unicode-range: U+0-7F, U+4??, U+26 }",
+    ".i1 { margin: 10.5px !important; top: 0.5em ! important; left: 20.5% !IMPORTANT }",
+]
+
+
 def gen_style(rng):
     sels = rng.sample(SELECTORS, rng.randint(1, 3))
     ds = []
@@ -131,6 +193,10 @@ def gen_style(rng):
             ds.append("/* d */")
         elif r < 0.13:
             ds.append("@in x")
+        elif r < 0.4:
+            n = rng.choice(NUM_SIGNS) + rng.choice(NUM_INTS[1:]) + rng.choice(NUM_FRACS)
+            ds.append("%s: %s%s" % (rng.choice(["margin-left", "top", "width", "line-height", "font-size"]), n,
+                                    rng.choice(NUM_UNITS)))
         else:
             ds.append(rng.choice(DECLS))
     body = "; ".join(ds)
@@ -202,7 +268,7 @@ def x_decls(style):
         if isinstance(v, css_parser.css.Property):
             if not v.wellformed:
                 continue
-            out.append(["prop", v.name, v.propertyValue.cssText, v.priority,
+            out.append(["prop", v.name, num_norm(v.propertyValue.cssText), v.priority,
                         {"valid": bool(v.valid), "effective": any(v is e for e in eff)}])
         elif isinstance(v, css_parser.css.CSSComment):
             out.append(["comment", ws_norm(v.cssText)])
@@ -211,6 +277,30 @@ def x_decls(style):
         else:
             out.append(["other", str(v)])
     return out
+
+
+_NUM_SPLIT = None
+
+
+def num_norm(text):
+    """value text with every number outside strings and url() written canonically (rounded to the serializer's
+    documented 6 decimals, no sign on zero, '+' dropped): values are compared numerically, everything else exactly"""
+    import re
+    global _NUM_SPLIT
+    if _NUM_SPLIT is None:
+        _NUM_SPLIT = (re.compile(r'''("(?:[^"\\]|\\.)*"|'(?:[^'\\]|\\.)*'|url\([^)]*\))''', re.S),
+                      re.compile(r"(?<![\w#.\\-])[+-]?(?:\d+\.?\d*|\.\d+)(?![\d.]*[?])"))
+    keep, num = _NUM_SPLIT
+
+    def canon(m):
+        try:
+            f = round(float(m.group(0)), 6)
+        except ValueError:
+            return m.group(0)
+        t = ("%.6f" % f).rstrip("0").rstrip(".")
+        return "0" if t in ("-0", "") else t
+    parts = keep.split(text)
+    return "".join(x if i % 2 else num.sub(canon, x) for i, x in enumerate(parts))
 
 
 def ws_norm(t):
@@ -855,7 +945,7 @@ def run(ctx):
             rows.append(({n: v}, False))
 
     gen_sheets = [gen_sheet(rng) for _ in range(120 if thorough else 22)]
-    fixed = corpus.get("sheets", [])
+    fixed = corpus.get("sheets", []) + numeric_sheets(full=thorough) + KIND_SHEETS
     samples = sample_sheets(20000 if thorough else 10000)
     sheets = [("corpus", t) for t in fixed] + [("gen", t) for t in gen_sheets] + samples
 
